@@ -4,6 +4,9 @@
 // compiled only under the build tag "verif").
 package client
 
+// Every function under contract in this package also serves the properties that depend on the whole package.
+//@ package-props C01 C18
+
 // ---- ReconnectClient -----------------------------------------------------------
 // subscribeDone is created by Subscribe's initialisation and closed when Subscribe
 // returns; it is never sent on.
